@@ -57,23 +57,25 @@ theorem current_rows : ∀ k ∈ current, if k.ok = true then Drains [k] else Ki
 
 /-! ### the rows behind the defects seen by the sweep -/
 
-/-- **D20** (and its siblings): for the sites of the generic task and the sub-process — registered, hence drains;
-or the leak witness -/
-def d20Sites : List String := ["genericTask.NextAction#1", "genericTask.run#1", "subProcess.NextAction#2", "subProcess.run#1"]
+/-- **D20** (and its siblings): the goroutines of the generic task and the sub-process, named by the BODY they run
+(the numbering of go sites moves when a `go` statement is added or moved) — registered, hence drains; or the leak
+witness -/
+def d20Bodies : List String := ["genericTask.run", "genericTask.run$1", "subProcess.run", "subProcess.run$1"]
 
-theorem current_D20 : ∀ k ∈ current, k.name ∈ d20Sites →
-    if (!k.sends || k.registered) = true then (k.sends = true → k.registered = true)
-    else KindFails k := by
-  intro k _ _
+theorem current_D20 : ∀ g ∈ goRows, g.body ∈ d20Bodies →
+    if (!(kindOf opRows g).sends || (kindOf opRows g).registered) = true then
+      ((kindOf opRows g).sends = true → (kindOf opRows g).registered = true)
+    else KindFails (kindOf opRows g) := by
+  intro g _ _
   split
   · next h => intro hs; simpa [hs] using h
   · next h =>
-    have : k.sends = true ∧ k.registered = false := by
-      cases h1 : k.sends <;> cases h2 : k.registered <;> simp_all
-    exact unregistered_sender_leaks k this.1 this.2
+    have : (kindOf opRows g).sends = true ∧ (kindOf opRows g).registered = false := by
+      cases h1 : (kindOf opRows g).sends <;> cases h2 : (kindOf opRows g).registered <;> simp_all
+    exact unregistered_sender_leaks _ this.1 this.2
 
-/-- the D20 sites are rows of the table (the theorem above is not vacuous) -/
-theorem current_D20_present : d20Sites.all (fun s => current.any (fun k => k.name == s)) = true := by decide
+/-- every D20 body is started by some go statement of the table (the theorem above is not vacuous) -/
+theorem current_D20_present : d20Bodies.all (fun b => goRows.any (fun g => g.body == b)) = true := by decide
 
 /-- **D22**: the token goroutine (`flow.Start$1`) and `harness.NextAction`'s receive `<-response`. Either that
 receive has got a cancellation alternative / justified partner, or the flow kind has the parked-for-ever witness
@@ -126,14 +128,13 @@ theorem current_subprocess_tracer :
 
 /-! ### no regression -/
 
-/-- sites known today to send without registration (D20 and its siblings; ProcessSet/timer/id rows are outside the
-sweep's corpus) -/
+/-- goroutine bodies known to have been started without registration (D20 and its siblings, all repaired in /repo by
+now; ProcessSet/timer/id rows are outside the sweep's corpus). Named by body, not by go-site number. -/
 def expectedFailingSenders : List String := [
-  "genericTask.NextAction#1", "genericTask.run#1", "subProcess.NextAction#2", "subProcess.run#1",
-  "harness.run#1", "ProcessSet.StartAll#1",
-  "ProcessSet.StartAll#2", "ProcessSet.run#1",   -- tracerProcess subscribes to a process tracer unregistered
-  "Process.StartWith#1",   -- the completion monitor: handle from p.tracer, sends on p.subTracer
-  "timer.eventDefinitionInstanceBuilder.NewEventDefinitionInstance#1", "id.Sno.RestoreIdGenerator#1"]
+  "genericTask.run", "genericTask.run$1", "subProcess.run", "subProcess.run$1",
+  "harness.run$1", "ProcessSet.run", "ProcessSet.tracerProcess",
+  "Process.ceaseFlowMonitor$ret",   -- the completion monitor: handle from p.tracer, sent on p.subTracer
+  "timer.eventDefinitionInstanceBuilder.NewEventDefinitionInstance$1", "id.Sno.RestoreIdGenerator$1"]
 
 /-- operations known today to have neither a cancellation alternative nor a justified partner -/
 def expectedFailingOps : List (String × String × String) := [
@@ -169,7 +170,7 @@ def anchorsWithCancellableSelect : List String := [
 
 def noRegression : Bool :=
   tablesFound
-  && failingSenders.all (expectedFailingSenders.contains ·)
+  && failingSenderBodies.all (expectedFailingSenders.contains ·)
   && failingOps.all (expectedFailingOps.contains ·)
   && unbalanced.isEmpty
   && anchorBodies.all (fun b => goRows.any (fun g => g.body == b))
